@@ -49,9 +49,9 @@ P = {
          'any input (C03_hole_index_safe). At the exact instance, for every input with finite coordinates: the sweep loop TERMINATES within '
          'an explicit event budget (C03_sweep_terminates, C03_sweep_returns: every division point is an edge end point or the common '
          'point of two non-parallel edges; #ids + 2 #(sub-segment, candidate strictly inside) never increases; every event is popped at '
-         'most once; NOTE the budget proved is n0 (1 + 2 #candidates) with #candidates = O(n^2), i.e. CUBIC in the number n of edges - the '
-         'QUADRATIC polynomial of the statement, 4n^2 + 2n + 16, is the budget the hook enforces on every run and was never exceeded, but is not '
-         'proved: it needs a count of DISTINCT candidate points per edge), and for sweeps that run to completion the closure hypothesis is a theorem (C03_exact_complete_run_index_safe). '
+         'most once), and the budget is QUADRATIC: with candidates taken up to == at most 3n of them lie strictly inside a sub-segment of '
+         'one edge and queue filling allocates at most 2n events, so 2n(1+6n) = 12n^2 + 2n events suffice for n input edges '
+         '(C03_event_bound_quadratic; the hook enforces the tighter 4n^2 + 2n + 16 on every run, never exceeded), and for sweeps that run to completion the closure hypothesis is a theorem (C03_exact_complete_run_index_safe). '
          'NOT proved: the event bound in floating point, and that '
          'contours[lower_contour_id] is in range (geometric; N1/N6 reach it); observed per run (budget hook, catch_unwind, child processes '
          'incl. staggered early-break scenarios).', '§7 C03', 'Coq: termination/container theorems; outcome correspondence release+debug, f64+f32; event-budget hook'),
